@@ -114,6 +114,61 @@ def main():
                         ok = False
             if not ok:
                 fail(f"{pattern}.arguments_or_defaults_not_passed_intact", shape=label, call=[k, sorted(kws)], received={a: repr(b) for a, b in recv.items()})
+        # named positional parameters supplied BY KEYWORD (docs/usage.md): refused loudly at binding time, or passed intact
+        if any(p.get("typeann") for m in sh for p in m):
+            continue
+        poslists = [[p for p in m if p["kind"] in ("P", "O")] for m in sh]
+        maxpos = max((len(pl) for pl in poslists), default=0)
+        minreq = min((sum(1 for p in pl if not p["default"]) for pl in poslists), default=0)
+        uniform = all(len({pl[i]["name"] for pl in poslists if i < len(pl)}) == 1 and all(pl[i]["kind"] == "P" for pl in poslists if i < len(pl)) for i in range(maxpos))
+        for mi, m in enumerate(sh):
+            pos = poslists[mi]
+            kwp = [p for p in m if p["kind"] == "K"]
+            reqk = {p["name"] for p in kwp if not p["default"]}
+            for npos in range(len(pos) + 1):
+                rest = list(range(npos, len(pos)))
+                for r in range(1, len(rest) + 1):
+                    for S in itertools.combinations(rest, r):
+                        if any(pos[i]["kind"] != "P" for i in S) or any((not pos[i]["default"]) and i not in S for i in rest):
+                            continue
+                        byname = {pos[i]["name"]: i for i in S}
+                        if len(byname) != len(S) or set(byname) & {p["name"] for p in kwp}:
+                            continue
+                        supplied = sorted(list(range(npos)) + list(S))
+                        gap = supplied != list(range(len(supplied)))
+                        n += 1
+                        args = [("arg", i) for i in range(npos)]
+                        kwargs = {nm: ("arg", i) for nm, i in byname.items()}
+                        kwargs.update({k: ("kw", k) for k in reqk})
+                        call = [npos, sorted(kwargs)]
+                        try:
+                            fn = ov.dispatch
+                            res = fn(slf, *args, **kwargs) if is_method else fn(*args, **kwargs)
+                        except TypeError as e:
+                            msg = str(e)
+                            loud = "positional-only" in msg or "unexpected keyword" in msg or "multiple values" in msg or "required positional" in msg
+                            documented = uniform and (maxpos - minreq) <= 1 and not gap
+                            if msg.startswith("Ambiguous"):
+                                continue
+                            if not loud or documented:
+                                fail("positional_by_keyword.rejected_although_documented" if documented else "positional_by_keyword.rejected_by_the_dispatch_not_the_binding", shape=label, call=call, error=msg[:100])
+                            continue
+                        except Exception as e:
+                            fail("positional_by_keyword.unexpected_exception", shape=label, call=call, error=f"{type(e).__name__}: {e}"[:100])
+                            continue
+                        mname, *rest_ = res
+                        recv = rest_[-1]
+                        mj = int(mname[1:])
+                        pj = poslists[mj]
+                        ok = not gap or True
+                        for i in supplied:
+                            if i >= len(pj) or recv[pj[i]["name"]] != ("arg", i):
+                                ok = False
+                        for i, p in enumerate(pj):
+                            if i not in supplied and recv[p["name"]] != ("default-of", mj):
+                                ok = False
+                        if not ok:
+                            fail("positional_by_keyword.supplied_argument_dropped_or_moved", shape=label, call=call, ran=mname, received={a: repr(b) for a, b in recv.items()})
     # results and exceptions reach the caller unchanged
     ov = Ovld(name="r")
     marker = object()
